@@ -113,10 +113,13 @@ func timeoutErr(op string, a net.Addr) error {
 }
 
 // portBusyLocked reports whether (ip,port) conflicts with a bound UDP socket.
-func (n *Net) udpBusyLocked(ip net.IP, port int, v4 bool) bool {
-	for _, s := range n.udp {
-		if s.local.Port != port || s.v4 != v4 {
+func (n *Net) udpBusyLocked(ip net.IP, port int, v4 bool, reuse bool) bool {
+	for _, s := range n.socks {
+		if s.local.Port != port || s.v4 != v4 || s.IsClosed() {
 			continue
+		}
+		if reuse && s.Reuse {
+			continue // both sockets carry SO_REUSEPORT: the kernel lets them share the port
 		}
 		if isWild(ip) || isWild(s.local.IP) || s.local.IP.Equal(ip) {
 			return true
@@ -126,10 +129,13 @@ func (n *Net) udpBusyLocked(ip net.IP, port int, v4 bool) bool {
 	return false
 }
 
-func (n *Net) tcpBusyLocked(ip net.IP, port int, v4 bool) bool {
-	for _, l := range n.lis {
-		if l.addr.Port != port || l.v4 != v4 {
+func (n *Net) tcpBusyLocked(ip net.IP, port int, v4 bool, reuse bool) bool {
+	for _, l := range n.listeners {
+		if l.addr.Port != port || l.v4 != v4 || l.IsClosed() {
 			continue
+		}
+		if reuse && l.Reuse {
+			continue // SO_REUSEPORT on both listeners
 		}
 		if isWild(ip) || isWild(l.addr.IP) || l.addr.IP.Equal(ip) {
 			return true
@@ -166,6 +172,11 @@ func familyOf(network string, ip net.IP) (v4 bool, err error) {
 
 // BindUDP binds a UDP socket; port 0 picks an ephemeral port.
 func (n *Net) BindUDP(network string, ip net.IP, port int) (*UDPSock, error) {
+	return n.BindUDPOpt(network, ip, port, false)
+}
+
+// BindUDPOpt is BindUDP with the SO_REUSEPORT socket option.
+func (n *Net) BindUDPOpt(network string, ip net.IP, port int, reuse bool) (*UDPSock, error) {
 	v4, err := familyOf(network, ip)
 	if err != nil {
 		return nil, err
@@ -189,7 +200,7 @@ func (n *Net) BindUDP(network string, ip net.IP, port int) (*UDPSock, error) {
 			if n.nextPort > 65535 {
 				n.nextPort = 49152
 			}
-			if !n.udpBusyLocked(ip, p, v4) {
+			if !n.udpBusyLocked(ip, p, v4, false) {
 				port = p
 
 				break
@@ -198,7 +209,7 @@ func (n *Net) BindUDP(network string, ip net.IP, port int) (*UDPSock, error) {
 		if port == 0 {
 			return nil, errAddrInUse("listen", &net.UDPAddr{IP: ip})
 		}
-	} else if n.udpBusyLocked(ip, port, v4) {
+	} else if n.udpBusyLocked(ip, port, v4, reuse) {
 		return nil, errAddrInUse("listen", &net.UDPAddr{IP: ip, Port: port})
 	}
 	n.nextID++
@@ -211,6 +222,7 @@ func (n *Net) BindUDP(network string, ip net.IP, port int) (*UDPSock, error) {
 		wake:     make(chan struct{}, 1),
 		closedCh: make(chan struct{}),
 		Born:     time.Now(),
+		Reuse:    reuse,
 	}
 	n.udp[key(ip, port)] = s
 	n.socks = append(n.socks, s)
@@ -350,6 +362,7 @@ func (n *Net) CloseAll() {
 type UDPSock struct {
 	net   *Net
 	ID    int
+	Reuse bool // bound with SO_REUSEPORT
 	Owner string
 	Born  time.Time
 	local *net.UDPAddr
@@ -998,6 +1011,7 @@ func (c *Conn) SetReadBuffer(int) error { return nil }
 type Listener struct {
 	net   *Net
 	ID    int
+	Reuse bool // bound with SO_REUSEPORT
 	Owner string
 	Born  time.Time
 	addr  *net.TCPAddr
@@ -1023,6 +1037,11 @@ func (l *Listener) String() string {
 
 // ListenTCPAt binds a listener; port 0 picks an ephemeral port.
 func (n *Net) ListenTCPAt(network string, ip net.IP, port int) (*Listener, error) {
+	return n.ListenTCPOpt(network, ip, port, false)
+}
+
+// ListenTCPOpt is ListenTCPAt with the SO_REUSEPORT socket option.
+func (n *Net) ListenTCPOpt(network string, ip net.IP, port int, reuse bool) (*Listener, error) {
 	v4, err := familyOf(network, ip)
 	if err != nil {
 		return nil, err
@@ -1043,7 +1062,7 @@ func (n *Net) ListenTCPAt(network string, ip net.IP, port int) (*Listener, error
 			if n.nextPort > 65535 {
 				n.nextPort = 49152
 			}
-			if !n.tcpBusyLocked(ip, p, v4) {
+			if !n.tcpBusyLocked(ip, p, v4, false) {
 				port = p
 
 				break
@@ -1052,7 +1071,7 @@ func (n *Net) ListenTCPAt(network string, ip net.IP, port int) (*Listener, error
 		if port == 0 {
 			return nil, errAddrInUse("listen", &net.TCPAddr{IP: ip})
 		}
-	} else if n.tcpBusyLocked(ip, port, v4) {
+	} else if n.tcpBusyLocked(ip, port, v4, reuse) {
 		return nil, errAddrInUse("listen", &net.TCPAddr{IP: ip, Port: port})
 	}
 	n.nextID++
@@ -1065,6 +1084,7 @@ func (n *Net) ListenTCPAt(network string, ip net.IP, port int) (*Listener, error
 		v4:       v4,
 		wake:     make(chan struct{}, 1),
 		closedCh: make(chan struct{}),
+		Reuse:    reuse,
 	}
 	n.lis[key(ip, port)] = l
 	n.listeners = append(n.listeners, l)
